@@ -105,8 +105,20 @@ impl Command for CommandImpl {
                 (start, end)
             };
 
+            if start < 0 {
+                return CommandResult::Error("Start index cannot be negative.".to_string());
+            }
+
             let start_index: usize = start.try_into().unwrap();
             let end_index: usize = end.try_into().unwrap();
+
+            if !string_value.is_char_boundary(start_index)
+                || !string_value.is_char_boundary(end_index)
+            {
+                return CommandResult::Error(
+                    "Index is not on a character boundary.".to_string(),
+                );
+            }
 
             let sub_string = &string_value.as_str()[start_index..end_index];
 
